@@ -152,9 +152,6 @@ type Kernel struct {
 	// blocked and may read scheduler-side state.
 	OnStall func(info *StallInfo) *Violation
 
-	// simMu is the state of the simulated mutexes (simsync.go), by address.
-	simMu map[uintptr]*simMu
-
 	// MuteAuto makes the yields inserted by tools/autoyield (sites "auto:…")
 	// no-ops for this run.
 	MuteAuto bool
